@@ -24,8 +24,8 @@ fn positional(d: &crate::registry::Dyn) -> bool {
 
 fn jobs(plan: &Plan) -> Vec<Job> {
     let t = plan.tier;
-    let mut v = entry_jobs(plan, "C13", "accessors", t.pick(100, 500, 1), positional);
-    v.extend(stack_jobs(plan, "C13", "stack-get", t.pick(12, 60, 0), |_| true));
+    let mut v = entry_jobs(plan, "C13", "accessors", t.pick(100, 5000, 1), positional);
+    v.extend(stack_jobs(plan, "C13", "stack-get", t.pick(12, 300, 0), |_| true));
     v
 }
 
